@@ -1377,6 +1377,7 @@ func runC18(r *harness.Run) {
 	r.Count("bfs_transitions", main.transitions+long.transitions)
 	c18FalseFamily(r)
 	c18LargeLists(r)
+	c18NilArgs(r)
 }
 
 func c18RunSortFamily(r *harness.Run, c *c18Ctx, workers []*c18W, lists [][]int) {
